@@ -145,6 +145,13 @@ type IterV struct {
 	ID   string
 	Rows []iterRow
 	Pos  int
+	// precise first position of a declared prefix family over a table without writes on this path
+	Fam     *PrefixFamily
+	W       *World
+	Fixed   []*smt.Term
+	Reverse bool
+	first   *BytesV
+	firstOK int // 0 unknown, 1 valid, 2 exhausted
 }
 type iterRow struct {
 	Key *BytesV
